@@ -30,12 +30,17 @@ from vmc import space, tmod
 class Reject(Exception):
     """The documented reading says this input cannot be deserialized."""
 
+    def __init__(self, msg="", index_error=False):
+        super().__init__(msg)
+        self.index_error = index_error
+
 
 class Unspecified(Exception):
     """The documentation does not determine the outcome for this input."""
 
 
-DEFAULT_OPTS = dict(native=frozenset(), namedtuple_as_dict=False, by_alias=False, drop_none_fields=False)
+DEFAULT_OPTS = dict(native=frozenset(), namedtuple_as_dict=False, by_alias=False, drop_none_fields=False,
+                    nt_swallow_index_error=False, none_in_fallback=False)
 
 NATIVE = {
     "orjson": frozenset({"datetime", "date", "time", "uuid"}),
@@ -159,20 +164,24 @@ def encode(d, v, ctx, o=DEFAULT_OPTS):
         for (e, kind), name in zip(d[2], info["fields"]):
             x = getattr(v, name)
             key = info["aliases"].get(name, name) if o["by_alias"] else name
+            if x is None and o["drop_none_fields"]:
+                continue
             if x is None and kind == "none":
-                if o["drop_none_fields"]:
-                    continue
                 out[key] = None
             else:
                 out[key] = E(e, x)
         return out
     if k in ("dcgen", "dcgeninh"):
         out = {"x": E(d[1], v.x), "xs": [E(d[1], x) for x in v.xs]}
+        if v.x is None and o["drop_none_fields"]:
+            del out["x"]
         if k == "dcgeninh":
             out["own"] = v.own
         return out
     if k == "dcinh":
         out = {"b": E(d[1], v.b), "a": v.a}
+        if v.b is None and o["drop_none_fields"]:
+            del out["b"]
         if v.c is None:
             if not o["drop_none_fields"]:
                 out["c"] = None
@@ -181,6 +190,8 @@ def encode(d, v, ctx, o=DEFAULT_OPTS):
         return out
     if k == "dcself":
         out = {"v": E(d[1], v.v)}
+        if v.v is None and o["drop_none_fields"]:
+            del out["v"]
         if v.nxt is None:
             if not o["drop_none_fields"]:
                 out["nxt"] = None
@@ -189,7 +200,13 @@ def encode(d, v, ctx, o=DEFAULT_OPTS):
         out["kids"] = [E(d, x) for x in v.kids]
         return out
     if k == "dcfwd":
-        return {"x": {"z": E(d[1], v.x.z), "w": v.x.w}, "y": E(d[1], v.y)}
+        out = {"x": {"z": E(d[1], v.x.z), "w": v.x.w}, "y": E(d[1], v.y)}
+        if o["drop_none_fields"]:
+            if v.x.z is None:
+                del out["x"]["z"]
+            if v.y is None:
+                del out["y"]
+        return out
     raise ValueError(d)
 
 
@@ -331,10 +348,17 @@ def _index(x, i):
         try:
             return x[i]
         except IndexError:
-            raise Reject("too short") from None
+            raise Reject("too short", index_error=True) from None
     if isinstance(x, dict):
         raise Unspecified("JSON object at an integer-indexed position")
     raise Reject("not indexable")
+
+
+def _none_pos(e):
+    """A position annotated None: the documentation does not say whether it is read at all."""
+    while e[0] in ("annotated", "final", "newtype"):
+        e = e[1]
+    return e == ("leaf", "none")
 
 
 def _items(x, what):
@@ -361,7 +385,16 @@ def decode(d, x, ctx, o=DEFAULT_OPTS):
     if k in ("tuple", "pep585tuple"):
         if len(d) == 1:
             return ()
-        return tuple(D(e, _index(x, i)) for i, e in enumerate(d[1:]))
+        out = []
+        for i, e in enumerate(d[1:]):
+            try:
+                item = _index(x, i)
+            except Reject:
+                if _none_pos(e):
+                    raise Unspecified("missing item at a None position") from None
+                raise
+            out.append(D(e, item))
+        return tuple(out)
     if k == "tupleu":
         pre, mid, post = d[1], d[2], d[3]
         if not isinstance(x, (list, tuple, str)):
@@ -393,6 +426,8 @@ def decode(d, x, ctx, o=DEFAULT_OPTS):
     if k == "counter":
         return collections.Counter(_ctor(dict, [(D(d[1], kk), _ctor(int, y)) for kk, y in _items(x, k)]))
     if k in ("opt", "optpipe"):
+        if d[1][0] in ("union", "pep604"):
+            return decode_union(("union", d), x, ctx, o)   # typing flattens Optional[Union[...]]
         return None if x is None else D(d[1], x)
     if k == "tvbound":
         return None if x is None else D(d[1], x)
@@ -417,25 +452,37 @@ def decode(d, x, ctx, o=DEFAULT_OPTS):
         if not isinstance(x, (list, tuple, str)):
             if isinstance(x, dict):
                 raise Unspecified("JSON object at an integer-indexed position")
+            if all(_none_pos(e) for e in descs):
+                raise Unspecified("only None positions")
             raise Reject("not indexable")
         for i, (e, hd) in enumerate(zip(descs, has_def)):
             if i >= len(x):
-                if any(has_def):
-                    # defaults cover the tail (every field after the first default has one)
-                    if all(has_def[i:]):
-                        break
-                    raise Reject("too short")
-                raise Reject("too short")
-            vals.append(D(e, x[i]))
+                if _none_pos(e):
+                    raise Unspecified("missing item at a None position")
+                if any(has_def) and all(has_def[i:]):
+                    break   # defaults cover the tail
+                raise Reject("too short", index_error=True)
+            try:
+                vals.append(D(e, x[i]))
+            except Reject as r:
+                if o["nt_swallow_index_error"] and r.index_error and any(has_def):
+                    break
+                raise
+        if len(vals) < len(descs) and not all(has_def[len(vals):]):
+            raise Reject("too short")
         return cls(*vals)
     if k == "td":
         fields = ctx.info[d]["fields"]
         if not isinstance(x, dict):
+            if all(_none_pos(e) or not req for (e, _), (_, req) in zip(d[1], fields)):
+                raise Unspecified("only None positions")
             raise Reject("JSON object expected")
         out = {}
         for (e, _), (name, req) in zip(d[1], fields):
             if req:
                 if name not in x:
+                    if _none_pos(e):
+                        raise Unspecified("missing key at a None position")
                     raise Reject(f"missing key {name}")
                 out[name] = D(e, x[name])
         for (e, _), (name, req) in zip(d[1], fields):
@@ -540,13 +587,24 @@ def _flatten_union(d):
     return res
 
 
-def decode_union(d, x, ctx, o, none_in_fallback=False):
+def scalar_of(m):
+    """int/float/bool/str/None members, also when spelled through NewType / Annotated / LiteralString."""
+    while m[0] in ("annotated", "newtype"):
+        m = m[1]
+    if m[0] != "leaf":
+        return None
+    name = {"newtype_int": "int", "literalstring": "str"}.get(m[1], m[1])
+    return name if name in SCALAR_LEAVES else None
+
+
+def decode_union(d, x, ctx, o):
     """DESIGN.md section 4(1)."""
+    none_in_fallback = o["none_in_fallback"]
     members = _flatten_union(d) if d[0] != "tvconstr" else list(d[1:])
-    scalars = [m for m in members if m[0] == "leaf" and m[1] in SCALAR_LEAVES]
+    scalars = [m for m in members if scalar_of(m)]
     for m in members:
         if m in scalars:
-            if type(x) is SCALAR_LEAVES[m[1]]:
+            if type(x) is SCALAR_LEAVES[scalar_of(m)]:
                 return x
             continue
         try:
@@ -556,12 +614,12 @@ def decode_union(d, x, ctx, o, none_in_fallback=False):
         except Unspecified:
             raise
     for m in scalars:
-        if m[1] == "none":
+        if scalar_of(m) == "none":
             if none_in_fallback:
                 return None
             continue
         try:
-            return dec_leaf(m[1], x, o)
+            return dec_leaf(scalar_of(m), x, o)
         except Reject:
             continue
     raise Reject("no union member accepts the input")
@@ -754,3 +812,12 @@ def basic_only(x, native_types=()):
     if t is dict:
         return all(basic_only(kk, native_types) and basic_only(v, native_types) for kk, v in x.items())
     return False
+
+
+def has_union3_with_none(d):
+    """The schema has a union position with >= 3 (flattened) members one of which is None."""
+    if d[0] in ("union", "pep604", "opt", "optpipe"):
+        ms = _flatten_union(d if d[0] in ("union", "pep604") else ("union", d))
+        if len(ms) >= 3 and ("leaf", "none") in ms:
+            return True
+    return any(has_union3_with_none(c) for c in space.children(d))
